@@ -418,12 +418,30 @@ fn download_to_file(path: &Path, url: &str, timeout: Duration) -> Result<File> {
         ));
     }
 
+    // A response that has neither a Content-Length nor chunked
+    // encoding ends when the connection is closed. If such a response
+    // gets cut short, curl can't tell and reports success. Make sure
+    // that the whole document arrived before replacing the previous
+    // file with it.
+    temp_file.as_file_mut().seek(SeekFrom::Start(0))?;
+    validate_currency_json(temp_file.as_file_mut())
+        .wrap_err_with(|| format!("Received an incomplete or invalid file from {}", url))?;
+
     temp_file.as_file_mut().sync_all()?;
     temp_file.as_file_mut().seek(SeekFrom::Start(0))?;
 
     temp_file
         .persist(path)
         .wrap_err("Failed to write to cache dir")
+}
+
+/// Checks that the file contains a complete currency document, i.e. the
+/// same thing that `Context::load_currency` is going to parse.
+fn validate_currency_json(file: &mut File) -> Result<()> {
+    let mut contents = String::new();
+    file.read_to_string(&mut contents)?;
+    serde_json::from_str::<Vec<rink_core::ast::DefEntry>>(&contents)?;
+    Ok(())
 }
 
 fn cached(
@@ -565,6 +583,49 @@ mod tests {
         );
         thread_handle.join().unwrap();
         drop(server);
+    }
+
+    #[test]
+    fn test_download_truncated() {
+        use std::io::Write;
+
+        // A response without Content-Length or chunked encoding, which
+        // gets cut off in the middle of the document.
+        let listener = std::net::TcpListener::bind("127.0.0.1:0").unwrap();
+        let url = format!(
+            "http://127.0.0.1:{}/data/currency.json",
+            listener.local_addr().unwrap().port()
+        );
+        let thread_handle = std::thread::spawn(move || {
+            let (mut stream, _) = listener.accept().unwrap();
+            let mut request = vec![];
+            let mut buf = [0u8; 1024];
+            while !request.ends_with(b"\r\n\r\n") {
+                let len = stream.read(&mut buf).unwrap();
+                assert!(len > 0, "the request should be complete");
+                request.extend_from_slice(&buf[..len]);
+            }
+            let data = include_bytes!("../../core/tests/currency.snapshot.json");
+            stream
+                .write_all(b"HTTP/1.1 200 OK\r\nConnection: close\r\n\r\n")
+                .unwrap();
+            stream.write_all(&data[..data.len() / 2]).unwrap();
+        });
+
+        let dir = tempfile::tempdir().unwrap();
+        let path = dir.path().join("currency.json");
+        std::fs::write(&path, "previous contents").unwrap();
+        let result = super::download_to_file(&path, &url, Duration::from_millis(2000));
+        let result = result.expect_err("an incomplete file should be rejected");
+        assert_eq!(
+            result.to_string(),
+            format!("Received an incomplete or invalid file from {}", url)
+        );
+        assert_eq!(
+            std::fs::read_to_string(&path).unwrap(),
+            "previous contents"
+        );
+        thread_handle.join().unwrap();
     }
 
     #[test]
